@@ -318,9 +318,11 @@ func exhaustiveShort(c *fw.Ctx, width, maxLen int) {
 
 func runStructured(c *fw.Ctx, width int, thorough bool) {
 	max := 1<<uint(width) - 1
-	special := []int{63, 64, 127, 128, 503, 504, 505, 16383, 16384}
+	// 64, 8192, 2^20 and 2^27 equal values are where the run header (count<<1
+	// as a varint) grows to 2, 3, 4 and 5 bytes
+	special := []int{63, 64, 127, 128, 503, 504, 505, 8191, 8192, 8193, 16383, 16384, 1<<20 - 1, 1 << 20, 1<<20 + 1}
 	if thorough {
-		special = append(special, 70000)
+		special = append(special, 70000, 1<<27-1, 1<<27)
 	}
 	emit := func(runs [][2]int) {
 		if !c.Mine() {
@@ -475,8 +477,8 @@ func decoderPlans(c *fw.Ctx, width, maxLen int) {
 // multi-byte headers, mixtures.
 func decoderLong(c *fw.Ctx, width int) {
 	max := uint8(1)<<uint(width) - 1
-	bpGroups := []int{1, 63, 64, 65, 127, 128, 200}
-	rleLens := []int{1, 7, 8, 63, 64, 127, 128, 16383, 16384}
+	bpGroups := []int{1, 63, 64, 65, 127, 128, 200, 8191, 8192}
+	rleLens := []int{1, 7, 8, 63, 64, 127, 128, 8191, 8192, 16383, 16384, 1<<20 - 1, 1 << 20}
 	mk := func(plan []refpq.RunSpec) ([]uint8, []refpq.RunSpec) {
 		var vals []uint8
 		for i, r := range plan {
